@@ -188,3 +188,59 @@ func VerifC16_Progress() {
 	}
 	vReach("ran")
 }
+
+// One-step lemma with a fully SYMBOLIC status vector (decided by the solver,
+// no enumeration of statuses): the vertex selection returns a vertex only if
+// it is pending (or marked skip) and none of its dependencies is pending or in
+// progress, reports "all done" exactly when every vertex is done, and in serial
+// mode returns nothing to launch while anything is in progress - for every
+// graph shape and every map iteration order. It calls an unexported function;
+// if a refactor removes it the harness no longer compiles and the check says so.
+func VerifC16_SelectionLemma() {
+	vNativeReset()
+	s := newScenario(scenarioOpts{n: 3, outcomes: oNil})
+	s.serial = vBool("serial")
+	s.build()
+	st := make([]int, s.n)
+	for i := 0; i < s.n; i++ {
+		st[i] = vInt("status"+strconv.Itoa(i), 0, 1000) // symbolic: too wide to be enumerated
+		vAssume(st[i] <= int(runDone))
+		s.graph.Vertices[s.tasks[i].ID].status = runStatus(st[i])
+	}
+	vPhase("run")
+	vMapOrder("explore")
+	v, allDone, ok := s.graph.getNextVertex()
+	vMapOrder("insertion")
+	everyDone := true
+	anyInProgress := false
+	for i := 0; i < s.n; i++ {
+		everyDone = vAnd(everyDone, st[i] == int(runDone))
+		anyInProgress = vOr(anyInProgress, st[i] == int(runInProgress))
+	}
+	vAssert("lemma/all-done-iff-every-vertex-done", allDone == everyDone)
+	if allDone {
+		vAssert("lemma/nothing-to-launch-when-done", !ok)
+	}
+	if ok {
+		k := -1
+		for i := 0; i < s.n; i++ {
+			if v == s.graph.Vertices[s.tasks[i].ID] {
+				k = i
+			}
+		}
+		vAssert("lemma/returns-a-vertex-of-the-graph", k >= 0)
+		if k >= 0 {
+			vAssert("lemma/selected-vertex-not-started", vOr(st[k] == int(runPending), st[k] == int(runSkip)))
+			for j := 0; j < k; j++ {
+				if s.dep[k][j] {
+					vAssert("lemma/no-dependency-pending-or-running", vAnd(st[j] != int(runPending), st[j] != int(runInProgress)))
+				}
+			}
+		}
+		if s.serial {
+			vAssert("lemma/serial-launches-nothing-while-running", !anyInProgress)
+		}
+		vReach("selected")
+	}
+	vReach("lemma")
+}
